@@ -8,3 +8,5 @@ import PycommProps.C17
 #print axioms Pycomm.C17.nth_ne_of_close
 #print axioms Pycomm.C17.sends_adjacent_differ
 #print axioms Pycomm.C17.seq_never_repeats
+#print axioms Pycomm.C17.seq_never_repeats_logix
+#print axioms Pycomm.C17.seq_never_repeats_logix_static
